@@ -68,9 +68,18 @@ def tokCompatB (g g' : Grammar) (p k : Nat) : Bool :=
   (List.range (max g.toks.size g'.toks.size)).all fun t =>
     (List.range (g.input.size + 1)).all fun q => tokCompatAt g g' p k t q
 
+/-- the token rows are not longer than the input allows (so no token "matches" beyond the end) -/
+def rowsOkB (g : Grammar) : Bool := g.toks.all fun row => decide (row.size ≤ g.input.size + 1)
+
 /-- the grammar run on the extended input with the token tables `toks'` -/
 def Grammar.ext (g : Grammar) (p : Nat) (ins : List Char) (toks' : Array (Array (Option Nat))) : Grammar :=
   { g with input := extendGap g.input p ins, toks := toks' }
+
+/-- all decidable side conditions of `C22_partial_ws` for extending the input of `g` at `p` by `ins` -/
+def gapExtOkB (g : Grammar) (p : Nat) (ins : List Char) (toks' : Array (Array (Option Nat)))
+    (skipws : Bool) (ws : List Char) : Bool :=
+  !g.memo && decide (p ≤ g.input.size) && skipws && ins.all (· ∈ ws) && modesSkipB g ins &&
+  rowsOkB g && rowsOkB (g.ext p ins toks') && tokCompatB g (g.ext p ins toks') p ins.length
 
 def Outcome.shift (f : Nat → Nat) : Outcome → Outcome
   | .tree v => .tree (v.shift f)
